@@ -54,21 +54,23 @@ mod cp__ser;
 mod lex_lat__ser;
 mod lat_two_keys__pari;
 mod count_paths__pari;
-mod count_paths__init;
-mod neg_basic__gen;
-mod neg_basic__perm1;
-mod agg_minmaxsum__pari;
+mod count_paths__src2;
+mod neg_basic__to;
+mod neg_basic__redecl;
+mod neg_basic__exp;
+mod agg_depth__to;
 mod agg_user__par;
 mod agg_bound_mix__par;
-mod disj__run;
-mod disj__runpar;
-mod disj_nested__ser;
-mod pat_args__exp;
-mod multi_head_disj__par;
-mod neg_in_disj__exppar;
-mod mac_basic__src1;
-mod mac_capture__ser;
-mod mac_nested__exp;
+mod disj__par;
+mod disj__src1;
+mod disj__ren;
+mod disj_nested__exppar;
+mod rep_expr__pari;
+mod neg_in_disj__ser;
+mod mac_basic__to;
+mod mac_basic__redecl;
+mod mac_capture__pari;
+mod mac_disj__ser;
 
 fn lookup(name: &str) -> fn() -> Box<dyn Driven> {
    match name {
@@ -118,21 +120,23 @@ fn lookup(name: &str) -> fn() -> Box<dyn Driven> {
       "lex_lat__ser" => lex_lat__ser::make,
       "lat_two_keys__pari" => lat_two_keys__pari::make,
       "count_paths__pari" => count_paths__pari::make,
-      "count_paths__init" => count_paths__init::make,
-      "neg_basic__gen" => neg_basic__gen::make,
-      "neg_basic__perm1" => neg_basic__perm1::make,
-      "agg_minmaxsum__pari" => agg_minmaxsum__pari::make,
+      "count_paths__src2" => count_paths__src2::make,
+      "neg_basic__to" => neg_basic__to::make,
+      "neg_basic__redecl" => neg_basic__redecl::make,
+      "neg_basic__exp" => neg_basic__exp::make,
+      "agg_depth__to" => agg_depth__to::make,
       "agg_user__par" => agg_user__par::make,
       "agg_bound_mix__par" => agg_bound_mix__par::make,
-      "disj__run" => disj__run::make,
-      "disj__runpar" => disj__runpar::make,
-      "disj_nested__ser" => disj_nested__ser::make,
-      "pat_args__exp" => pat_args__exp::make,
-      "multi_head_disj__par" => multi_head_disj__par::make,
-      "neg_in_disj__exppar" => neg_in_disj__exppar::make,
-      "mac_basic__src1" => mac_basic__src1::make,
-      "mac_capture__ser" => mac_capture__ser::make,
-      "mac_nested__exp" => mac_nested__exp::make,
+      "disj__par" => disj__par::make,
+      "disj__src1" => disj__src1::make,
+      "disj__ren" => disj__ren::make,
+      "disj_nested__exppar" => disj_nested__exppar::make,
+      "rep_expr__pari" => rep_expr__pari::make,
+      "neg_in_disj__ser" => neg_in_disj__ser::make,
+      "mac_basic__to" => mac_basic__to::make,
+      "mac_basic__redecl" => mac_basic__redecl::make,
+      "mac_capture__pari" => mac_capture__pari::make,
+      "mac_disj__ser" => mac_disj__ser::make,
       _ => panic!("no such program variant in this shard: {}", name),
    }
 }
